@@ -88,13 +88,14 @@ EXPECTED_CMD = [
     "Sync: sy.wait.Close(err)",
     "Sync: return err",
     "runCluster: runWait.Sleep(1 * time.Second)",
+    "runCluster: if role == cluster.RoleLeader && time.Since(leaseFrom) >= sc.leaseHold()",
     "runCluster: if role == cluster.RoleLeader",
     "runCluster: err = sy.RunLeader()",
     "runCluster: if role == cluster.RoleFollower",
     "runCluster: err = sy.RunFollower(leader)",
     "runCluster: syncerWait.Close(err)",
     "runCluster: syncerWait.Close(fmt.Errorf(\"panic : %v\", i))",
-    "runCluster: sc.clusterTicker(syncerWait, role, elect, cfg.Input.Address(), key)",
+    "runCluster: sc.clusterTicker(syncerWait, role, elect, cfg.Input.Address(), key, leaseFrom)",
     "runCluster: sy.Stop()",
     "runCluster: syncerWait.WgWait()",
     "runCluster: err = syncerWait.Error()",
@@ -108,10 +109,113 @@ EXPECTED_CMD = [
     "runCluster: time.Sleep(1 * time.Second)"
 ]
 
+# the shape of the runCluster state machine (lean/GunYu/Model/Handover.lean is its transcription)
+EXPECTED_RUNCLUSTER = [
+    "runCluster: usync.SafeGo(…)",
+    "runCluster: runWait.Close(syncer.ErrRestart)",
+    "runCluster: return",
+    "runCluster: for !runWait.IsClosed()",
+    "runCluster: if err != nil",
+    "runCluster: runWait.Close(syncer.ErrRestart)",
+    "runCluster: return",
+    "runCluster: runWait.Close(syncer.ErrRedisTypologyChanged)",
+    "runCluster: return",
+    "runCluster: if role == cluster.RoleCandidate",
+    "runCluster: newRole, err := sc.clusterCampaign(runWait.Context(), elect)",
+    "runCluster: if err != nil",
+    "runCluster: runWait.Close(syncer.ErrRestart)",
+    "runCluster: break",
+    "runCluster: role = newRole",
+    "runCluster: if role == cluster.RoleCandidate",
+    "runCluster: runWait.Sleep(1 * time.Second) [candidate 1000 ms]",
+    "runCluster: continue",
+    "runCluster: if role == cluster.RoleLeader && time.Since(leaseFrom) >= sc.leaseHold()",
+    "runCluster: role = cluster.RoleCandidate",
+    "runCluster: continue",
+    "runCluster: sy := syncer.NewSyncer(cfg)",
+    "runCluster: syncerWait := usync.NewWaitCloserFromParent(runWait, nil)",
+    "runCluster: sc.setSyncer(cfg.Input.Address(), sy, syncerWait)",
+    "runCluster: usync.SafeGo(…)",
+    "runCluster: if role == cluster.RoleLeader",
+    "runCluster: err = sy.RunLeader()",
+    "runCluster: if role == cluster.RoleFollower",
+    "runCluster: leader, err = elect.Leader(syncerWait.Context())",
+    "runCluster: if err == nil",
+    "runCluster: err = sy.RunFollower(leader)",
+    "runCluster: if err != cluster.ErrNoLeader",
+    "runCluster: err = errors.Join(err, syncer.ErrBreak)",
+    "runCluster: syncerWait.Close(err)",
+    "runCluster: syncerWait.Close(fmt.Errorf(\"panic : %v\", i))",
+    "runCluster: sc.clusterTicker(syncerWait, role, elect, cfg.Input.Address(), key, leaseFrom)",
+    "runCluster: sy.Stop()",
+    "runCluster: syncerWait.WgWait()",
+    "runCluster: err = syncerWait.Error()",
+    "runCluster: if role == cluster.RoleLeader",
+    "runCluster: terr := elect.Resign(ctx)",
+    "runCluster: if terr != nil",
+    "runCluster: err = errors.Join(err, terr, syncer.ErrBreak)",
+    "runCluster: role = cluster.RoleCandidate",
+    "runCluster: sc.delSyncer(cfg.Input.Address())",
+    "runCluster: if err != nil",
+    "runCluster: if errors.Is(err, syncer.ErrLeaderHandover)",
+    "runCluster: runWait.Sleep(10 * time.Second) [handover 10000 ms]",
+    "runCluster: if errors.Is(err, syncer.ErrLeaderTakeover)",
+    "runCluster: time.Sleep(1 * time.Second) [takeover 1000 ms]",
+    "runCluster: if errors.Is(err, syncer.ErrBreak)",
+    "runCluster: runWait.Close(err)",
+    "runCluster: return",
+    "runCluster: time.Sleep(1 * time.Second) [other 1000 ms]",
+    "clusterCampaign: newRole, err := elect.Campaign(ctx)",
+    "clusterRenew: err := elect.Renew(ctx)",
+    "clusterTicker: if wait.IsClosed()",
+    "clusterTicker: return",
+    "clusterTicker: ticker := time.NewTicker(config.GetSyncerConfig().Cluster.LeaseRenewInterval)",
+    "clusterTicker: if role == cluster.RoleLeader",
+    "clusterTicker: wait.Close(errors.Join(cluster.ErrNotLeader, syncer.ErrBreak))",
+    "clusterTicker: case <-wait.Context().Done():",
+    "clusterTicker: return",
+    "clusterTicker: case <-ticker.C:",
+    "clusterTicker: if role == cluster.RoleLeader",
+    "clusterTicker: util.Retry(renew, 2)",
+    "clusterTicker: return sc.clusterRenew(wait.Context(), elect)",
+    "clusterTicker: if err != nil",
+    "clusterTicker: return false, err",
+    "clusterTicker: if role == cluster.RoleFollower",
+    "clusterTicker: role, err := sc.clusterCampaign(wait.Context(), elect)",
+    "clusterTicker: if err != nil",
+    "clusterTicker: return false, err",
+    "clusterTicker: if role == cluster.RoleLeader",
+    "clusterTicker: return true, nil",
+    "clusterTicker: return false, nil",
+    "clusterTicker: case <-wait.Context().Done():",
+    "clusterTicker: return",
+    "clusterTicker: case res = <-result:",
+    "clusterTicker: if res.err != nil",
+    "clusterTicker: wait.Close(errors.Join(res.err, syncer.ErrBreak))",
+    "clusterTicker: if res.changed",
+    "clusterTicker: wait.Close(nil)",
+    "clusterTicker: if res.err == nil && lease != nil",
+    "NewSyncer: sy.channel = NewChannel(cfg.Channel, cfg.Input.Address())",
+    "NewSyncer: sy.wait = usync.NewWaitCloser(nil)",
+    "syncer.Stop: wait.Close(nil)",
+    "syncer.run: defer … channel.Close()",
+    "syncer.runLeader: leader.Start()",
+    "syncer.runLeader: usync.SafeGo(func() { defer wait.WgDone() err := input.Run() wait.Close(err) }, func(i interface{}) { wait.Close(fmt.Errorf(\"panic: %v\", i)) })",
+    "syncer.runLeader: go input.Run",
+    "syncer.runLeader: <-wait.Done()",
+    "syncer.runLeader: leader.Stop()",
+    "syncer.runLeader: input.Stop()",
+    "syncer.runLeader: output.Close()",
+    "syncer.runLeader: wait.WgWait()",
+    "ReplicaFollower.Run: if errors.Is(err, ErrBreak) || errors.Is(err, ErrRole)",
+    "ReplicaFollower.Run:   rf.wait.Sleep(2 * time.Second)",
+    "ReplicaFollower.Run:   return err"
+]
+
 EXPECTED_CODES = ["CLEAR=3", "CONTINUE=1", "ERROR=11", "FAILURE=12", "FAULT=10", "HANDOVER=2", "META=0"]
 
 PROP = {
-    "lean_modules": ["GunYu.Props.C16"],
+    "lean_modules": ["GunYu.Props.C16", "GunYu.Props.C16Handover"],
     "audit_namespaces": ["GunYu.Props.C16"],
     "required_theorems": [
         "GunYu.Props.C16.follower_prefix_of_leader",
@@ -129,11 +233,31 @@ PROP = {
         "GunYu.Props.C16.resynchronises_keeps_copy",
         "GunYu.Props.C16.ahead_gets_handover",
         "GunYu.Props.C16.handover_leader_steps_down",
+        # runCluster, from the offer to the new leader (Props/C16Handover.lean)
+        "GunYu.Props.C16.no_two_senders",
+        "GunYu.Props.C16.resign_after_stop",
+        "GunYu.Props.C16.silent_until_campaign_won",
+        "GunYu.Props.C16.old_leader_waits_out_its_lease",
+        "GunYu.Props.C16.old_leader_silent_under_old_lease",
+        "GunYu.Props.C16.resign_frees",
+        "GunYu.Props.C16.campaign_outcome",
+        "GunYu.Props.C16.offered_becomes_leader",
+        "GunYu.Props.C16.handover_completes",
+        "GunYu.Props.C16.follower_promoted_by_ticker",
+        "GunYu.Props.C16.promoted_cache_intact",
+        # counter-witnesses (decide) to the statements without their hypotheses
+        "GunYu.Props.C16.two_senders_if_stop_outlives_lease",
+        "GunYu.Props.C16.old_leader_back_if_lease_longer_than_pause",
+        "GunYu.Props.C16.old_leader_back_if_restarted",
+        "GunYu.Props.C16.memory_cache_lost_at_promotion",
     ],
-    "expected_facts": {"c16_gap_threshold": 10485760, "c16_codes": EXPECTED_CODES, "c16_calls": EXPECTED_CALLS, "c16_cmd": EXPECTED_CMD},
+    "expected_facts": {"c16_gap_threshold": 10485760, "c16_codes": EXPECTED_CODES, "c16_calls": EXPECTED_CALLS, "c16_cmd": EXPECTED_CMD,
+                       "c16_runcluster": EXPECTED_RUNCLUSTER},
     "harness": [{"name": "C16", "pkg": "./syncer/", "test": "TestVerifC16",
                  "timeout_quick": "30m", "timeout_thorough": "60m"},
                 {"name": "C16cmd", "pkg": "./cmd/", "test": "TestVerifC16Cmd",
+                 "timeout_quick": "30m", "timeout_thorough": "60m"},
+                {"name": "C16ho", "pkg": "./cmd/", "test": "TestVerifC16Handover",
                  "timeout_quick": "30m", "timeout_thorough": "60m"}],
     "driver": "drv_C16",
     "rule": "one op per pass of the REAL ReplicaFollower.Run (handshake .. first error; Run's error pauses are intercepted through its WaitCloser, "
@@ -159,6 +283,26 @@ PROP = {
             "other id): first answer and whether Sync stopped this input's syncer (role error) or all (break error) compared with the model's "
             "syncReact; monitor HANDOVER <=> the leader's syncer is stopped with ErrLeaderHandover; end to end: the real Run of an ahead follower "
             "over gRPC against the registered SyncerCmd ends with ErrLeaderTakeover, the leader's syncer wait closed, the follower's cache intact. "
+            "Third harness C16ho: the REAL (*SyncerCmd).runCluster of TWO instances in one process through the whole hand-over — A campaigns, "
+            "leads (real NewSyncer/RunLeader: real RedisInput PSYNC from a replication-source double, real RedisOutput to the target double, "
+            "checkpoint written), B joins holding more (a disk cache filled beforehand), follows (real RunFollower/ReplicaFollower.Run over real "
+            "gRPC to A's real SyncerCmd.Sync -> ServiceReplica -> HANDOVER), A's wait is closed, ticker returns, sy.Stop, Resign, 10 s pause; B: "
+            "take-over error after Run's 2 s, sy.Stop, 1 s, Campaign (or its ticker's Campaign first), NewSyncer on the same directory, RunLeader "
+            "resuming the source behind the end of ITS cache, feeding the target what A had not; A comes back as B's follower and catches up. "
+            "Lease: an in-memory double of pkg/cluster's election (Campaign = take when missing / expired / mine with a fresh TTL, Renew, Resign "
+            "= delete when mine, Leader) with scripted failures; every call is recorded with its instant and with its call site (loop or "
+            "clusterTicker, read from the call stack). Scenarios: Resign succeeds; Resign fails once (lease 9 s: the follower's first campaign "
+            "loses, its ticker wins when the key has run out); thorough: Resign fails and the lease (25 s) outlives the 10 s pause (the old "
+            "leader is back, offers again, the second hand-over completes). The recorded calls become one `hand` op: the Lean state machine "
+            "(Model/Handover.lean) is run on the same events and must give the same answer to every call (won/lost/failed, ok/stop, offer "
+            "accepted, a loop campaign that comes before the model's pause is over is `early`) and the same final lease holder, roles, caches "
+            "and number of senders. Monitors independent of the model, none depending on a wait: at the instant of every Resign the instance's "
+            "leader syncer is not running and at the instant a Campaign is won no OTHER instance's leader syncer is running (goroutine labels "
+            "inherited from each instance's runCluster, read from the goroutine profile inside the lease call: a goroutine inside "
+            "(*syncer).runLeader = input and output open); old leader's next campaign >= 10 s after the Resign that followed its offer; "
+            "offered follower's loop campaign >= 3 s after the offer unless its ticker won first; the promoted follower resumes the source "
+            "with PSYNC <same id> <end of its cache + 1> and its cache stays contiguous and never shrinks. Conditions waited for (A fed and "
+            "checkpointed before B joins; B leads, A caught up, target fed) have a limit of 120 s and are a broken tie when they do not come. "
             "Compared with the Lean model: every message the follower read (code, "
             "id, aof, offset, size, data), the outcome (stage, class) and the follower's store afterwards (disk: every run-id directory parsed from "
             "the files; memory: what the channel serves). Monitors independent of the model: every byte/snapshot under an id is a byte some state of "
@@ -170,7 +314,10 @@ PROP = {
             "distinct_nontrivial = distinct (backend, relation, outcome, #messages, leader shape, static?) with at least two CONTINUE chunks",
     "trusted": ["grpc-go on loopback TCP between the real Run and the real ServiceReplica (no fake transport); the harness's stream wrapper, "
                 "WaitCloser/Logger wrappers of the follower and Input/Channel wrappers of the leader",
-                "history oracle of the harness (two run ids differ at every offset) and its file parser for the disk backend"],
+                "history oracle of the harness (two run ids differ at every offset) and its file parser for the disk backend",
+                "C16ho: the lease double (semantics of pkg/cluster/redis's election scripts: one key, value = the instance's peer address, TTL; "
+                "not etcd's), the replication-source double (INFO/ROLE/REPLCONF/PSYNC with FULLRESYNC and CONTINUE), pkg/vfdoubles.Target behind "
+                "a loopback listener, the goroutine profile with pprof labels as the observation of 'leader syncer running'"],
     "assumptions": ["regenerated: preSync's gap threshold (Gen/ReplicaConsts.lean, used by the model); compared with expectation: response code numbers "
                     "and the ordered list of channel calls / Sends / handleResp arities / guarding conditions of every ReplicaLeader and "
                     "ReplicaFollower method, Run's state assignments and ServiceReplica's gate (a change means the model has to be re-read)",
@@ -200,14 +347,42 @@ PROP = {
                     "goes on sending after selfInspection's CLEAR) are not part of the compared trace",
                     "model of the repaired behaviour: D16 (preSync relabelling), CLEAR answer taken as snapshot announcement, reader of another run id "
                     "streamed by sendData (all three fixed in /repo), D14 (C05)",
+                    "runCluster model (Model/Handover.lean): hand-written transcription of cmd/syncer.go runCluster / clusterTicker, syncer.run's "
+                    "deferred channel.Close, NewSyncer's new channel, ReplicaFollower.Run's pause before a role error; pinned by the source fact "
+                    "c16_runcluster (every statement of the loop that moves the role, creates/stops a syncer, calls the election or pauses; the "
+                    "ticker; runLeader's closing order) and the three pauses are regenerated into Gen/ReplicaConsts.lean (the model's defaults); "
+                    "any number of instances, one lease, events = every call answered or failed, calls landing late, syncers ending on their "
+                    "own, crashes, restarts, time",
+                    "hypothesis `timely` of no_two_senders (guarded clock; counter-witness two_senders_if_stop_outlives_lease): the lease of an "
+                    "instance that is still sending does not run out — the leader renews in time or stops itself `leaseHold` after its last "
+                    "successful renewal (C15, fixed in /repo 8b531f9) AND sy.Stop()/WgWait complete within what is left of the lease (one renew "
+                    "interval). The second half is not verified anywhere: a leader whose output blocks in a write for longer than that is "
+                    "still `sending` when another instance wins the key",
+                    "hypothesis ttl <= 10 s pause of old_leader_waits_out_its_lease / old_leader_silent_under_old_lease, needed only when "
+                    "Resign FAILS (counter-witness old_leader_back_if_lease_longer_than_pause; cluster.leaseTimeout may be set up to 600 s, the "
+                    "default 10 s is exactly at the bound): with a longer lease the old leader re-acquires its own unexpired key after the "
+                    "pause, leads again and offers again — confirmed on the real runCluster (thorough scenario, lease 25 s: campaign won at "
+                    "10.16 s, second offer at 12.15 s, hand-over completed at 13.15 s). Safety is not affected (no two senders, the ahead "
+                    "follower is never overwritten, nothing is lost); the hand-over is delayed for as long as Resign keeps failing (the "
+                    "source's own comment: '@TODO maybe endless in some corner cases'). Also assumed there: the old leader's process is not "
+                    "restarted during the pause (counter-witness old_leader_back_if_restarted: the key carries the address, not the process) "
+                    "and no Renew that was sent before the stop reaches the store after the Resign has been answered (the model lets a late "
+                    "Renew extend the key only until then; the harness would show a later one as a difference)",
+                    "(4) is for the disk backend (promoted_cache_intact): a memory channel is emptied when the follower's syncer ends "
+                    "(memory_cache_lost_at_promotion) — the new leader then resumes from the target's checkpoint or resynchronises in full, "
+                    "nothing is lost but the advantage. What the new leader's INPUT does with the intact cache is C06's rule (syncMeta): it "
+                    "resumes behind the cache's end when the target's checkpoint lies within the cache; when the target holds no checkpoint "
+                    "yet (the old leader was stopped before it wrote one — observed in the harness when B joins at once) it resynchronises "
+                    "in full and replaces the cache. The harness therefore lets A write its checkpoint before B joins",
+                    "C16ho runs on the wall clock (loopback sockets and the disk reader's sleep under its mutex rule out testing/synctest); "
+                    "the model's time is the recorded instants in ms; no verdict depends on a wait (orders of calls and LOWER bounds of "
+                    "pauses only). The election config of the process (leaseTimeout 9 s, renew 1 s) is shared by the scenarios; the lease "
+                    "double's TTL is per scenario. Break errors (a failed Campaign, a failed Renew) end runCluster and restart the whole "
+                    "command: modelled (pause 0 / restart), not executed",
                     "not generated: the follower's own Stop() in the middle of a transfer; back-pressure of the follower's pipe is not forced "
                     "(transfers above the pipe size are generated, but the real writers drain it quickly); the syncer's channel shared between the "
                     "follower and leader roles of one process (runFollower/RunLeader on one channel object) — the harness owns one channel per role"],
-    "partial": ["'is offered leadership' is verified on both sides up to the closed wait: follower — Run returns ErrLeaderTakeover with its cache "
-                "intact; leader — HANDOVER makes ServiceReplica return a role error and the real SyncerCmd.Sync close this input's syncer wait "
-                "(theorem handover_leader_steps_down + harness C16cmd). What cmd/syncer.go runCluster does next (sy.Stop, elect.Resign, 10 s pause "
-                "of the old leader, 1 s pause and campaign of the follower) is NOT executed by this check: it is pinned by the source facts c16_cmd "
-                "(order of the calls and conditions) and the lease side is C15's"],
+    "partial": [],
 }
 
 MANIFEST = {
@@ -218,8 +393,15 @@ MANIFEST = {
             "answer deletes, an uninterrupted session ends with the follower exactly at the leader's end (resynchronises), an ahead follower gets "
             "HANDOVER and keeps its cache. The model is tied to the real ReplicaFollower.Run and the real ServiceReplica/Handle talking over real "
             "gRPC on both channel backends by differential correspondence of every message read, outcome and resulting store, cut after every "
-            "message, with the leader's own input acting between Handle's reads; independent monitors check faithfulness/contiguity directly.",
+            "message, with the leader's own input acting between Handle's reads; independent monitors check faithfulness/contiguity directly. "
+            "From the offer to the new leader: cmd/syncer.go runCluster of every instance as a state machine over (phase, lease, pauses, cache), "
+            "theorems over ALL event lists (any number of instances, every call succeeding or failing, late calls, crashes, restarts): whoever "
+            "sends holds the unexpired lease, so no two instances ever send; Resign only after the stop; a stopped leader is silent until it wins "
+            "a campaign, and after a hand-over not before its old key has expired (lease <= the 10 s pause); the offered follower leads after "
+            "2 s + 1 s with exactly the cache it held (disk), unless the key is somebody else's — then that one leads alone —, or earlier "
+            "through its ticker; decide-checked counter-witnesses for each hypothesis. Tied by source facts and by running the real "
+            "runCluster of two instances through complete hand-overs (Resign ok / failing / lease longer than the pause) against the model.",
     "note": "trusted: Lean kernel (propext, Classical.choice, Quot.sound only), grpc-go, harness wrappers and oracle; model hand-written "
             "(correspondence); a leader's cache assumed faithful to its channel id, open readers assumed to serve their own id (C05)",
-    "technique": "Lean 4 proof (invariant over the session function, induction on metaSync rounds and on step lists, progress by evaluation) + differential correspondence + monitors",
+    "technique": "Lean 4 proof (invariant over the session function, induction on metaSync rounds and on step lists, progress by evaluation; lease invariant over the runCluster machine) + differential correspondence + monitors",
 }
